@@ -352,7 +352,7 @@ theorem commit_step (s : St) (a : Addr) (ssrc seq ts : Nat) (m : Bool) (p : Prob
     (receive s a (.rtp ssrc seq ts m)).remote = w ∧
     (receive s a (.rtp ssrc seq ts m)).rtpLatched = true ∧
     (receive s a (.rtp ssrc seq ts m)).prob = none := by
-  have hm : (moveTo (adopt s a) s.remote a).remote = a := moveTo_remote _ _ _ (adopt_remote s a)
+  have hm : (moveTo (adopt s a) (adopt s a).remote a).remote = a := moveTo_remote _ _ _ (Or.inl rfl)
   simp only [receive, rtpLatch, adopt_latchOn, adopt_rtpLatched, adopt_expected, adopt_prob, hon, hl, hp]
   simp [hleg, hw, commitTo_remote _ _ _ hm]
 
@@ -364,7 +364,7 @@ theorem no_winner_step (s : St) (a : Addr) (ssrc seq ts : Nat) (m : Bool) (p : P
     (receive s a (.rtp ssrc seq ts m)).remote = a ∧
     (receive s a (.rtp ssrc seq ts m)).prob =
       some { p with total := satInc totalMax p.total, cands := observe p.cands a seq ts m } := by
-  have hm : (moveTo (adopt s a) s.remote a).remote = a := moveTo_remote _ _ _ (adopt_remote s a)
+  have hm : (moveTo (adopt s a) (adopt s a).remote a).remote = a := moveTo_remote _ _ _ (Or.inl rfl)
   simp only [receive, rtpLatch, adopt_latchOn, adopt_rtpLatched, adopt_expected, adopt_prob, hon, hl, hp]
   simp [hleg, hw, hl, hm]
 
@@ -372,7 +372,7 @@ theorem immediate_step (s : St) (a : Addr) (ssrc seq ts : Nat) (m : Bool)
     (hon : s.latchOn = true) (hl : s.rtpLatched = false) (hp : s.prob = none)
     (hleg : s.expected = 0 ∨ ssrc = s.expected) :
     (receive s a (.rtp ssrc seq ts m)).rtpLatched = true ∧ (receive s a (.rtp ssrc seq ts m)).remote = a := by
-  have hm : (moveTo (adopt s a) s.remote a).remote = a := moveTo_remote _ _ _ (adopt_remote s a)
+  have hm : (moveTo (adopt s a) (adopt s a).remote a).remote = a := moveTo_remote _ _ _ (Or.inl rfl)
   simp [receive, rtpLatch, hon, hl, hp, hleg, hm]
 
 /-- One legitimate packet during probation either commits or advances the counter by one
